@@ -47,6 +47,11 @@ def cases_(draw):
         pkg = draw(gp.input_package(3, 3, types=TYPES))
         prog = draw(gp.programs(2, 5, kinds=['delete_resource', 'sources', 'iterable', 'delete_resource', 'duplicate',
                                              'concatenate', 'sources', 'iterable'], pkg=pkg, favour_mutators=False))
+    elif gen.rare(draw, 180):
+        # focused class 'numeric typing': integer and number columns side by side, steps that derive a type from them
+        pkg = draw(gp.input_package(2, 3, types=['integer', 'number', 'number']))
+        prog = draw(gp.programs(1, 4, kinds=['add_computed', 'join', 'add_computed', 'unpivot', 'concatenate', 'join'],
+                                pkg=pkg, favour_mutators=False))
     else:
         pkg = draw(gp.input_package(2, 3, types=TYPES))
         prog = draw(gp.programs(1, 6, kinds=KINDS, pkg=pkg, favour_mutators=False))
